@@ -201,6 +201,29 @@ def same_object(a, b):
     return a is b
 
 
+def approx(a, b, scale=1.0):
+    """equality over the reals for the prover; at run time equality up to floating-point rounding (1e-9 relative)"""
+    a, b = float(a), float(b)
+    if a != a or b != b:
+        return (a != a) and (b != b)
+    if a in (float("inf"), float("-inf")) or b in (float("inf"), float("-inf")):
+        return a == b
+    return abs(a - b) <= 1e-9 * max(abs(a), abs(b), abs(float(scale)))
+
+
+def shape0(a):
+    return a.shape[0]
+
+
+def shape1(a):
+    return a.shape[1]
+
+
+def sqrt(x):
+    import math
+    return math.sqrt(x)
+
+
 def shares_buffer(a, b):
     import numpy as np
     return bool(np.shares_memory(a, b))
@@ -208,7 +231,7 @@ def shares_buffer(a, b):
 
 RUNTIME_VOCAB = dict(bo_fields=bo_fields, bo_names=bo_names, bo_order=bo_order, bo_bytes=bo_bytes, bo_swapped=bo_swapped,
                      bo_value=bo_value, machine_little=machine_little, bo_big=bo_big, bo_little=bo_little, bo_native=bo_native,
-                     same_object=same_object, shares_buffer=shares_buffer,
+                     same_object=same_object, shares_buffer=shares_buffer, approx=approx, shape0=shape0, shape1=shape1, sqrt=sqrt,
                      is_permutation=is_permutation, implies=implies, permutation=permutation, is_sorted=is_sorted, pairs_kept=pairs_kept)
 
 
